@@ -67,6 +67,9 @@ var Alphabet = []Item{
 	{ID: "precomment", Kind: kAttr, Name: "pc", Tmpl: "@·=·/* pre */·[¦]\n"},
 	{ID: "parenml", Kind: kAttr, Name: "pm", Tmpl: "@·=·(\n»1·+\n»2\n)\n"},
 	{ID: "null", Kind: kAttr, Name: "a_rather_long_name", Tmpl: "@·=·null\n"},
+	// a name more than 40 columns longer than its neighbours' (alignment gaps wider than the
+	// serialiser's chunk of blanks) and a block nest deeper than 20 levels (indentation wider than it)
+	{ID: "verylongname", Kind: kAttr, Name: "an_attribute_name_that_is_a_good_deal_longer_than_forty_columns", Tmpl: "@·=·1·# vl\n"},
 	// attributes with attached comments
 	{ID: "trailhash", Kind: kAttr, Name: "th", Core: true, Tmpl: "@·=·1·# trail  hash\tx\n"},
 	{ID: "trailslash", Kind: kAttr, Name: "tsl", Tmpl: "@·=·\"v\"·// trail slash\n"},
@@ -83,6 +86,7 @@ var Alphabet = []Item{
 	{ID: "blktrailinline", Kind: kBlock, Tmpl: "blk·\"t\"·{\n»k·=·1\n}·/* after brace, inline */\n"},
 	{ID: "blkonelinetrail", Kind: kBlock, Tmpl: "blk·{·x·=·1·}·/* one-line, inline */¦\n"},
 	{ID: "nested", Kind: kBlock, Core: true, Tmpl: "outer·\"o\"·{\n»x·=·1\n»inner·{\n»»y·=·\"v\"·# ny\n»»zzz·=·2\n»}\n\n»w·=·[¦]\n}\n"},
+	{ID: "deepnest", Kind: kBlock, Tmpl: "deep·{\n»d·{\n»»d·{\n»»»d·{\n»»»»d·{\n»»»»»d·{\n»»»»»»d·{\n»»»»»»»d·{\n»»»»»»»»d·{\n»»»»»»»»»d·{\n»»»»»»»»»»d·{\n»»»»»»»»»»»d·{\n»»»»»»»»»»»»d·{\n»»»»»»»»»»»»»d·{\n»»»»»»»»»»»»»»d·{\n»»»»»»»»»»»»»»»d·{\n»»»»»»»»»»»»»»»»d·{\n»»»»»»»»»»»»»»»»»d·{\n»»»»»»»»»»»»»»»»»»d·{\n»»»»»»»»»»»»»»»»»»»d·{\n»»»»»»»»»»»»»»»»»»»»d·{\n»»»»»»»»»»»»»»»»»»»»»d·{\n»»»»»»»»»»»»»»»»»»»»»»k·=·1\n»»»»»»»»»»»»»»»»»»»»»»longer_key·=·2·# dk\n»»»»»»»»»»»»»»»»»»»»»}\n»»»»»»»»»»»»»»»»»»»»}\n»»»»»»»»»»»»»»»»»»»}\n»»»»»»»»»»»»»»»»»»}\n»»»»»»»»»»»»»»»»»}\n»»»»»»»»»»»»»»»»}\n»»»»»»»»»»»»»»»}\n»»»»»»»»»»»»»»}\n»»»»»»»»»»»»»}\n»»»»»»»»»»»»}\n»»»»»»»»»»»}\n»»»»»»»»»»}\n»»»»»»»»»}\n»»»»»»»»}\n»»»»»»»}\n»»»»»»}\n»»»»»}\n»»»»}\n»»»}\n»»}\n»}\n}\n"},
 	{ID: "blkbody", Kind: kBlock, Tmpl: "blk·{\n»# in body\n\n»k·=·1\n»/* tail */\n}\n"},
 	// comments and blank lines of their own
 	{ID: "hash", Kind: kComment, Core: true, Tmpl: "¦# hash  comment\ttab\n"},
@@ -100,15 +104,24 @@ const (
 	Tight
 	Loose
 	NStyles
+	// Wide: every gap is a run of more than 40 blanks (the serialiser writes runs of blanks
+	// in chunks).  Not one of the NStyles of the edit sweep; the file part renders it for
+	// sequences of up to two items.
+	Wide Style = NStyles
 )
 
-func (s Style) String() string { return [...]string{"canonical", "tight", "loose"}[s] }
+func (s Style) String() string { return [...]string{"canonical", "tight", "loose", "wide"}[s] }
 
 var (
 	looseM = []string{"\t", "  ", " \t", "\t "}
 	looseO = []string{"\t", "   ", "\t ", " "}
 	looseZ = []string{" ", "\t", "", "  "}
 	looseI = []string{"\t", "   ", " \t", "      "}
+
+	wideM = []string{strings.Repeat(" ", 41), strings.Repeat(" ", 97)}
+	wideO = []string{strings.Repeat(" ", 41), strings.Repeat(" ", 64), strings.Repeat(" ", 40)}
+	wideZ = []string{"", strings.Repeat(" ", 41), "", strings.Repeat(" ", 80)}
+	wideI = []string{strings.Repeat(" ", 43), strings.Repeat(" ", 81)}
 )
 
 // File is one generated source text together with what the generator knows about it.
@@ -138,6 +151,18 @@ func Render(items []int, st Style, finalNL bool) (File, bool) {
 			g = canon
 		case Tight:
 			g = tight
+		case Wide:
+			w := wideO
+			switch &loose[0] {
+			case &looseM[0]:
+				w = wideM
+			case &looseZ[0]:
+				w = wideZ
+			case &looseI[0]:
+				w = wideI
+			}
+			g = w[n%len(w)]
+			n++
 		default:
 			g = loose[n%len(loose)]
 			n++
